@@ -1575,17 +1575,18 @@ def main():
     quick = ck.quick
     rng = ck.rng
     jobs = []
+    streams = os.environ.get("VERIF_C05_STREAMS", "CBMA")       # development knob: run only some legs (C corpus, B probes, M, A)
     # ---- 1. corpus of minimised past failures
     cdir = os.path.join(vlib.VERIF, "corpus", PID)
     corpus_n = 0
-    if os.path.isdir(cdir):
+    if os.path.isdir(cdir) and "C" in streams:
         for fn in sorted(os.listdir(cdir)):
             if fn.endswith(".json"):
                 c = json.load(open(os.path.join(cdir, fn)))
                 jobs.append(Job("corpus", c["key"], c["source"], c.get("opt", 0), [c.get("argv", ["1"] * NARGS)], asan=c.get("asan", False), end=c.get("end")))
                 corpus_n += 1
     # ---- 2. construct probes
-    P = probes()
+    P = probes() if "B" in streams else []
     asan_only = ("container-into-own-Variable", "text-compare-after-shrink", "o2-value-and-Referenz", "nul-text")
     for (key, src, opts) in P:
         for o in (opts if quick else (0, 1, 2)):
@@ -1595,7 +1596,7 @@ def main():
                 jobs.append(Job("B", "%s opt=%d" % (key, o), src, o, [["1"] * NARGS], asan=True, end="|ende"))
     # ---- 2b. values derived from a temporary container, in every role (always also under ASan: a reference that
     #          outlives its owner does not unbalance the ledger)
-    DP = derived_probes()
+    DP = derived_probes() if "B" in streams else []
     for (key, src) in DP:
         if quick:
             o = rng.choice((0, 2))
@@ -1611,20 +1612,20 @@ def main():
         scale = float(os.environ.get("VERIF_C05_SCALE", "1"))      # development knob (mutation runs): fewer generated programs
     except ValueError:
         scale = 1.0
-    nM = max(4, int((36 if quick else 340) * scale))
+    nM = max(4, int((36 if quick else 220) * scale)) if "M" in streams else 0
     asan_M = asan_A = 0
     for i in range(nM):
         g = GenM(rng, featM)
         src, sx = g.program()
-        tapes = ["".join(rng.choice("01") for _ in range(rng.choice((20, 60)))) for _ in range(2 if quick else 4)] + ["1" * 40, "0"]
+        tapes = ["".join(rng.choice("01") for _ in range(rng.choice((20, 60)))) for _ in range(2 if quick else 3)] + ["1" * 40, "0"]
         for o in ((0, 2) if quick else (0, 1, 2)):
             jobs.append(Job("M", "stream=M", src, o, [[t] for t in tapes], sx=sx(o)))
         n_el = src.count(") an der Stelle")      # elements of temporaries: the sanitizer sample prefers these programs
-        if not quick and (i % 3 == 0 or n_el) and asan_M < 150 or quick and (i % 9 == 0 or (n_el and asan_M < 7)):
+        if not quick and (i % 3 == 0 or n_el) and asan_M < 100 or quick and (i % 9 == 0 or (n_el and asan_M < 7)):
             asan_M += 1
             jobs.append(Job("M", "stream=M", src, rng.choice((0, 2)), [[t] for t in tapes[:2] + ["1" * 40]], sx=None, asan=True))
     for risky in ("loop-condition-temporaries", "for-bound-temporaries", "for-header-temporaries", "foreach-header-temporaries"):
-        for i in range(3 if quick else 20):
+        for i in range((3 if quick else 14) if "M" in streams else 0):
             g = GenM(rng, featM, risky=risky)
             src, sx = g.program()
             tapes = ["".join(rng.choice("01") for _ in range(40)) for _ in range(2)] + ["1" * 40]
@@ -1632,15 +1633,15 @@ def main():
             jobs.append(Job("M", "stream=M", src, o, [[t] for t in tapes], sx=sx(o), risky=risky if g.planted else None))
     # ---- 4. random programs over all types, roles, exits
     featA = {}
-    nA = max(6, int((60 if quick else 760) * scale))
+    nA = max(6, int((60 if quick else 460) * scale)) if "A" in streams else 0
     for i in range(nA):
         g = GenA(rng, featA)
         src = g.program()
         argvs = rng.sample(ARGVS, 3) if quick else ARGVS
-        opts = (i % 3,) if (quick or i >= 150) else (0, 1, 2)
+        opts = (i % 3,) if (quick or i >= 100) else (0, 1, 2)
         for o in opts:
             jobs.append(Job("A", "stream=A", src, o, argvs))
-        if (quick and (i % 10 == 0 or (g.derived_in_scope and asan_A < 9))) or (not quick and (i % 5 == 0 or g.derived_in_scope) and asan_A < 220):
+        if (quick and (i % 10 == 0 or (g.derived_in_scope and asan_A < 9))) or (not quick and (i % 5 == 0 or g.derived_in_scope) and asan_A < 140):
             asan_A += 1
             jobs.append(Job("A", "stream=A", src, rng.choice((0, 2)), argvs if g.derived_in_scope else argvs[:2], asan=True))
     log("[c05] %d compile jobs (%d corpus, %d+%d probes, %d M programs, %d A programs)" % (len(jobs), corpus_n, len(P), len(DP), nM, nA))
@@ -1760,12 +1761,13 @@ def main():
         features_random_stream=dict(sorted(featA.items())), features_model_stream=dict(sorted(featM.items())),
         opt_levels=[0, 1, 2], exhaustive=False,
         rule="a run is counted non-trivial if its ledger has at least 12 ddp_reallocate calls; distinct = distinct (program, command line, -O level, link flavour)"))
-    ck.sample(dict(stream="B", key=P[3][0], expected="balanced ledger, output ends with |ende"))
+    if P:
+        ck.sample(dict(stream="B", key=P[3][0], expected="balanced ledger, output ends with |ende"))
     ck.sample(dict(stream="M", note="real event sequence between the two marker allocations == Own.run (Own.compile skeleton) with the tape as oracle, pointers renamed by creation order"))
     ck.finish(explanation=(
         "Model re-synchronised with /repo after the repairs 6711de1 c2054d3 2f9971e bf84b8a 597753d 39a39c6 91b5d4a d296fb2 (no -O2 elision when another "
         "argument of the call mentions the variable) 7366b9f (a variable left operand of Text concatenation is copied into a scope temporary before a right "
-        "operand that contains a call and can reach the variable; EUse2 stands for two operands read by unary operators, as stream M renders it — the same "
+        "operand that contains a call and can reach the variable — a `falls` counts as containing a call, because its decision is the oracle, i.e. the call of the tape reader `nimm` in the compared programs; EUse2 stands for two operands read by unary operators, as stream M renders it — the same "
         "rule for `gleich` applied directly to two non-primitive operands is not modelled). "
         "FULL: C05_balancedb_correct (the extracted checker that judges every real ledger decides `balanced`), C05_balanced_released_once, "
         "C05_actions_balanced_on_every_exit (soundness of the static ownership discipline for the code generator's actions on fallthrough, break, "
